@@ -27,8 +27,10 @@ LEVEL_NOTE = ('a SOP class registered only as SCP has no SCU service to hand out
 RULE = ('case = (sequence of add_scu/add_scp calls, reply pattern); distinct = (class-list sizes, overlap, reply '
         'pattern); non-trivial = at least one class configured')
 ASSUMPTIONS = ['reply PDUs are built by the reference encoder and decoded by the library, as the provider would']
-REQUIRED = ['oracle.request-wellformed', 'oracle.usable-contexts', 'oracle.lookup', 'oracle.reject-reply']
+REQUIRED = ['oracle.request-wellformed', 'oracle.usable-contexts', 'oracle.lookup', 'oracle.reject-reply',
+            'oracle.reply-in-another-order', 'oracle.last-context-ids']
 
+TS4 = ['1.2.840.10008.1.2.1', '1.2.840.10008.1.2', '1.2.840.10008.1.2.2', '1.2.840.10008.1.2.4.50']
 POOL = ['1.2.840.10008.5.1.4.1.1.%d' % i for i in range(1, 200)]
 TS3 = [F.EXPLICIT, F.IMPLICIT, b'1.2.840.10008.1.2.2']
 NRANDOM = {'quick': 1500, 'thorough': 200000}
@@ -40,6 +42,7 @@ def exhaustive(tier):
 
 def plan(tier, seed):
     specs = [{'name': 'patterns', 'n': n} for n in (0, 1, 2, 3, 4)]
+    specs.append({'name': 'boundary'})
     for part in chunked(range(NRANDOM[tier]), 11):
         if part:
             specs.append({'name': 'random', 'lo': part[0], 'hi': part[-1] + 1})
@@ -53,10 +56,25 @@ def run_shard(spec, tier, seed):
         for results in itertools.product(range(5), repeat=n):
             for rot in range(3):
                 run_case(res, {'calls': [['scu', n, 0]], 'results': list(results), 'rot': rot,
-                               'ae': 'client', 'seed': seed})
+                               'ae': 'client', 'seed': seed,
+                               'order': ('proposal', 'reversed', 'shuffled')[rot],
+                               'ts': (0b0111, 0b0001, 0b1010)[(rot + sum(results)) % 3]})
         for results in itertools.product((0, 1, 3), repeat=n):
             run_case(res, {'calls': [['scp', max(n - 1, 0), 0], ['scu', 1 if n else 0, 50]],
                            'results': list(results), 'rot': 1, 'ae': 'full', 'seed': seed})
+    elif spec['name'] == 'boundary':
+        # configurations that use the last odd context ids (255 = the 128th context), in one call
+        # and spread over several
+        for sizes in ([126], [127], [128], [100, 28], [127, 1], [64, 63, 1], [1, 127], [125, 2], [40, 40, 40, 8]):
+            for ae_kind in ('client', 'full'):
+                for order in ('proposal', 'reversed'):
+                    calls, start = [], 0
+                    for k, size in enumerate(sizes):
+                        calls.append(['scp' if (ae_kind == 'full' and k == 1) else 'scu', size, start])
+                        start += size
+                    run_case(res, {'calls': calls, 'results': [0, 0, 3, 0, 1] * 26, 'rot': 1, 'ae': ae_kind,
+                                   'seed': seed, 'order': order, 'ts': 0b0111})
+                    res.count('oracle.last-context-ids')
     else:
         for i in range(spec['lo'], spec['hi']):
             r = rng(seed, 'c11', i)
@@ -81,7 +99,10 @@ def run_shard(spec, tier, seed):
                 reply = {}
             case = {'calls': calls, 'results': [r.choice([0, 0, 0, 1, 2, 3, 4]) for _ in range(total)],
                     'rot': r.randrange(3), 'ae': r.choice(['client', 'full']), 'seed': seed,
-                    'max': r.choice([16384, 65536, 1024, 7])}
+                    'max': r.choice([16384, 65536, 1024, 7]),
+                    # the entity's transfer syntaxes (subset of four) and the order of the reply's items
+                    'ts': r.choice([0b0111, 0b0111, r.randrange(1, 16)]),
+                    'order': r.choice(['proposal', 'proposal', 'reversed', 'shuffled'])}
             case.update(reply)
             run_case(res, case)
     return res
@@ -112,21 +133,35 @@ def run_case(res, case):
     if sum(sizes):
         res.distinct.add('%s|%s|%s|%s' % (calls, case['results'][:12], case['rot'],
                                           case.get('rj') or case.get('hostile')))
+    mask = case.get('ts', 0b0111)
+    tss = [t for k, t in enumerate(TS4) if mask >> k & 1]
     with stubdul.stubbed() as Stub:
         if full:
-            ae = applicationentity.AE(local_title, 0, bind_and_activate=False, max_pdu_length=max_len)
+            ae = applicationentity.AE(local_title, 0, supported_ts=tss, bind_and_activate=False,
+                                      max_pdu_length=max_len)
         else:
-            ae = applicationentity.ClientAE(local_title, max_pdu_length=max_len)
+            ae = applicationentity.ClientAE(local_title, supported_ts=tss, max_pdu_length=max_len)
         try:
             for kind, size, start in calls:
                 classes = POOL[start:start + size]
-                if kind == 'scp' and full:
-                    ae.add_scp(service('scp', classes))
-                    configured += [('scp', c) for c in classes]
-                else:
-                    ae.add_scu(service('scu', classes), classes if classes else None) \
-                        if classes else ae.add_scu(service('scu', []), [])
-                    configured += [('scu', c) for c in classes]
+                try:
+                    if kind == 'scp' and full:
+                        ae.add_scp(service('scp', classes))
+                    else:
+                        ae.add_scu(service('scu', classes), classes if classes else None) \
+                            if classes else ae.add_scu(service('scu', []), [])
+                except Exception as exc:
+                    # refusing a configuration that needs more than the 128 odd ids is a legitimate
+                    # answer to it; refusing one that fits is not
+                    total = len(set(c for _, c in configured) | set(classes))
+                    if len(configured) + len(classes) <= 128:
+                        res.count('oracle.request-wellformed')
+                        res.violation('configuration-refused', 'C11.request',
+                                      'config %s: adding %d classes to %d configured ones (%d distinct in all) '
+                                      'raised %s: %s' % (calls, len(classes), len(configured), total,
+                                                         type(exc).__name__, exc), case)
+                    return
+                configured += [(kind if (kind == 'scp' and full) else 'scu', c) for c in classes]
             judge(res, case, ae, configured, Stub, max_len, local_title, remote_title)
         finally:
             if full:
@@ -163,6 +198,13 @@ def judge(res, case, ae, configured, Stub, max_len, local_title, remote_title):
                 answers.append((free[0], 0, F.IMPLICIT))
         elif case.get('hostile') == 'repeated-id' and answers:
             answers.append(answers[0])
+        # the standard prescribes no order for the result items
+        if case.get('order') == 'reversed':
+            answers.reverse()
+        elif case.get('order') == 'shuffled':
+            rng(case.get('seed', 0), 'c11-order', len(answers), case['rot']).shuffle(answers)
+        if case.get('order', 'proposal') != 'proposal' and len(answers) > 1:
+            captured['reordered'] = True
         captured['plan'] = plan
         ac = F.assoc_ac_tree(contexts=answers, max_len=32768, called=remote_title.encode(),
                              calling=local_title.encode())
@@ -245,6 +287,8 @@ def judge(res, case, ae, configured, Stub, max_len, local_title, remote_title):
                       case)
         return
     res.count('oracle.usable-contexts')
+    if captured.get('reordered'):
+        res.count('oracle.reply-in-another-order')
     plan = captured['plan']
     usable = {cid: (abstract.decode(), ts.decode()) for cid, (result, ts, abstract) in plan.items()
               if result == 0}
